@@ -44,6 +44,7 @@ LISTM = 'starlark/src/values/types/list/methods.rs'
 AMOD = 'starlark/src/eval/bc/compiler/assign_modify.rs'
 BCCALL = 'starlark/src/eval/bc/compiler/call.rs'
 VECMAP = 'starlark_map/src/vec_map.rs'
+BCW = 'starlark/src/eval/bc/writer.rs'
 RNGG = 'starlark/src/values/types/range/globals.rs'
 
 # (unit, file, old, new, expected obligation substring)
@@ -180,6 +181,8 @@ MUTANTS = [
     ('vecmap', VECMAP, '        let ((key, value), hash) = self.buckets.pop()?;\n        Some((Hashed::new_unchecked(hash, key), value))', '        let ((key, value), hash) = self.buckets.remove(0);\n        Some((Hashed::new_unchecked(hash, key), value))', 'pop'),
     ('vecmap', VECMAP, '        self.buckets.push((key.into_key(), value), hash);', '        self.buckets.push((key.into_key(), value), StarlarkHashValue(0));', 'C11.vecmap.insert_appends'),
     ('limits', EVALRS, '        let res = self.with_call_stack(Value::new_none(), None, |this| {\n            function.invoke(&params, this)\n        });', '        self.call_stack.push(Value::new_none(), None)?;\n        let res = function.invoke(&params, self);\n        if res.is_ok() {\n            self.call_stack.pop();\n        }', 'eval_function'),
+    ('bcstop', BCW, '        for depth in (0..self.for_loops.len()).rev() {\n            let iter = self.for_loops[depth].iter;\n            self.write_instr::<InstrIterStop>(span, iter);\n        }', '        if let Some(for_loop) = self.for_loops.last() {\n            let iter = for_loop.iter;\n            self.write_instr::<InstrIterStop>(span, iter);\n        }', 'C12.bc.iter_stop.all_open_loops'),
+    ('bcstop', BCW, '        for depth in (0..self.for_loops.len()).rev() {', '        for depth in (1..self.for_loops.len()).rev() {', 'write_iter_stop'),
     ('calls', INSTR, '        eval.with_call_stack(self.to_value(), Some(location), |eval| {\n            self.invoke(args, eval)\n        })', '        self.invoke(args, eval)', 'bc_invoke'),
     ('calls', 'starlark/src/values/layout/value.rs', '        eval.with_call_stack(self, location, |eval| {\n            self.get_ref_full().invoke(args, eval)\n        })', '        self.get_ref_full().invoke(args, eval)', 'invoke_with_loc'),
     ('strindex', STRT, 'let ind = CharIndex(i.unsigned_abs() as usize);', 'let ind = CharIndex((-i) as usize);', 'at'),
